@@ -31,11 +31,49 @@ XI, XF, YL = [30, 10, 20], [2.5, 0.5, 1.5], ["b", "a"]
 
 
 def bounds(tier):
-    return {"datasets": 6, "max_vars": 4, "stack_lists": "2-3 datasets"}
+    return {"datasets": 6 + len(gen_names(tier)), "max_vars": 4, "stack_lists": "2-3 datasets",
+            "generated_datasets": "all combinations of {} of the 8 pool variables over x,y,z (0-d, 1-d, 2-d both orders, 3-d, with NaN) x x-label kinds {}".format(
+                "1-2" if tier == "quick" else "1-4", "int/float/str (4-variable combinations: int only)")}
+
+
+ZL = [7, 3]
+XS = ["q", "p", "r"]
+POOL = "abcdefgh"
+
+
+def gen_specs(which):
+    """generated Datasets 'g:<pool letters>:<x kind>': every combination of pool variables over the dimensions x, y, z"""
+    _, letters, kx = which.split(":")
+    x = {"i": XI, "f": XF, "O": XS}[kx]
+    pool = {
+        "a": D.spec(["x", "y"], [x, YL], [kx, "O"], vk="f", base=2, attrs={"long": "v"}),
+        "b": D.spec(["x"], [x], [kx], vk="i", base=3),
+        "c": D.spec([], [], [], vk="f", base=4),
+        "d": D.spec(["y", "x"], [YL, x], ["O", kx], vk="f", base=5),
+        "e": D.spec(["y"], [YL], ["O"], vk="f", base=6, attrs={"u": 1}),
+        "f": D.spec(["x", "y", "z"], [x, YL, ZL], [kx, "O", "i"], vk="f", base=7),
+        "g": D.spec(["z"], [ZL], ["i"], vk="i", base=8),
+        "h": D.spec(["z", "x"], [ZL, x], ["i", kx], vk="f", base=9, nan=(1, 4)),
+    }
+    return [("v" + c, pool[c]) for c in letters]
+
+
+def gen_names(tier):
+    out = []
+    sizes = (1, 2) if tier == "quick" else (1, 2, 3, 4)
+    for n in sizes:
+        for comb in itertools.combinations(POOL, n):
+            for kx in ("i", "f", "O"):
+                if n == 4 and kx != "i":
+                    continue
+                out.append("g:{}:{}".format("".join(comb), kx))
+    return out
 
 
 def ds_specs(which):
     """-> list of (key, spec)"""
+    if which.startswith("g:"):
+        return gen_specs(which)
     x = XF if which in ("float", "float2") else XI
     kx = "f" if which in ("float", "float2") else "i"
     V = D.spec(["x", "y"], [x, YL], [kx, "O"], vk="f", base=2, attrs={"long": "v"}, nan=(1,) if which == "nan" else ())
@@ -66,7 +104,9 @@ def build_ds(which, shift=0, xlabels=None, ylabels=None):
 
 
 def shards(tier):
-    return [{"ds": w, "part": p} for w in DSNAMES for p in ("index", "reduce", "axisops", "arith")] + [{"part": "join", "k": k} for k in range(6)]
+    names = DSNAMES + gen_names(tier)
+    joins = list(DSNAMES) + [w for w in gen_names(tier) if len(w.split(":")[1]) <= 3]
+    return [{"ds": w, "part": p} for w in names for p in ("index", "reduce", "axisops", "arith")] + [{"part": "join", "k": w} for w in joins]
 
 
 def _labels(which, dim):
@@ -122,7 +162,8 @@ def cases(sh, tier):
                 for axarg in (d, i):
                     for skipna in (None, True):
                         yield {"ds": w, "op": ["reduce", f, axarg, skipna], "dim": d}
-            yield {"ds": w, "op": ["reduce", f, "default", None], "dim": dims[0]}
+            if dims:
+                yield {"ds": w, "op": ["reduce", f, "default", None], "dim": dims[0]}
     elif sh["part"] == "axisops":
         for i, d in enumerate(dims):
             lab, kind = _labels(w, d)
@@ -154,7 +195,9 @@ def cases(sh, tier):
 
 
 def _join_cases(k):
-    w = ["full", "lack", "one", "float", "nan", "float2"][k]
+    w = ["full", "lack", "one", "float", "nan", "float2"][k] if isinstance(k, int) else k
+    if _labels(w, "x")[0] is None:
+        return
     for n in (2, 3):
         for variant in ("equal", "xperm", "xdisj", "yperm"):
             for align in (False, True):
@@ -311,6 +354,8 @@ def check(case):
                 ds2 = build_ds(w, shift=3)
             elif other == "xdiffer":
                 lab, kind = _labels(w, "x")
+                if lab is None:
+                    return unspecified("no-x")
                 ds2 = build_ds(w, shift=1, xlabels=[lab[1], D.ABSENT_ABOVE[kind], lab[0]])
             elif other == "ydiffer":
                 if "y" not in dims:
@@ -384,6 +429,11 @@ def _check_join(case):
         if any("x" not in dss[0][k].dims for k in dss[0].keys()):
             call(common.da.concatenate_ds, dss, axis=axarg, align=align)
             return unspecified("concat-lacking-dim")
+        if axarg == 0 and (list(dss[0].dims)[0] != "x" or any(dss[0][k].dims[0] != "x" for k in dss[0].keys())):
+            # an integer axis is a position: in the Dataset's dims or in each variable's?  The statement does not say; only the case where both
+            # readings name 'x' is compared
+            call(common.da.concatenate_ds, dss, axis=axarg, align=align)
+            return unspecified("concat-int-axis-ambiguous")
         f = lambda: common.da.concatenate_ds(dss, axis=axarg, align=align)
         for k in dss[0].keys():
             per[k] = call(common.da.concatenate, [d[k] for d in dss], axis="x", align=align)
